@@ -29,7 +29,11 @@ def _proj():
         cfg = (triggers.BASE_CONFIG + "nesting:\n  max_nesting_depth: 4\n  typescript:\n    max_nesting_depth: 2\n  rust:\n    max_nesting_depth: 9\n"
                "srp:\n  max_methods: 7\n  python:\n    max_methods: 3\n  rust:\n    max_methods: 20\n"
                "magic-numbers:\n  max_small_integer: 10\n  typescript:\n    allowed_numbers: [3975]\n")
+        # the project's own configuration excuses one file; an explicitly given configuration file stands in for it as a whole
+        _P["cfg_without_ignore"] = cfg
+        cfg += "ignore:\n  - 'src/legacy_excused.py'\n"
         triggers.write_project(d, names=set(FILES) | {"nest.py", "nest.rs", "srp.rs", "magic.ts"}, config=cfg)
+        (Path(d) / "src" / "legacy_excused.py").write_text(triggers.T["magic.py"][3].replace("3975", "4813"))
         (Path(d) / "src" / "sub").mkdir()
         (Path(d) / "src" / "sub" / "deep.py").write_text(triggers.T["magic.py"][3].replace("3975", "4801"))
         # a pair of files whose findings would differ if analyzer state leaked from file to file
@@ -169,7 +173,7 @@ def h_cli_vs_api(ctx):
         root_ignore.write_text("src/aliasmod.py\nsrc/nest.ts\n")      # the project's own repository-level list, next to the explicit file's
     if explicit != "none":
         cf = d / ("explicit-%d.yaml" % os.getpid())      # per process: pool workers share nothing they write
-        cf.write_text((d / ".thailint.yaml").read_text() + "\nignore:\n  - 'src/magic.py'\n  - 'src/sub/'\n  - '*.rs'\n")
+        cf.write_text(_P["cfg_without_ignore"] + "\nignore:\n  - 'src/magic.py'\n  - 'src/sub/'\n  - '*.rs'\n")
         cfg_args, cfg_kw = ["--config", str(cf)], {"config_file": cf}
     ign.clear_ignore_parser_cache()
     try:
